@@ -354,6 +354,77 @@ theorem comparisons (a : Angle) (b : Operand) :
   simp [angle_lt, angle_le, angle_gt, angle_ge, angle_eq, angle_ne, plt, pabs_eq]
 
 
+/-! ### Growth round: boundary, every shape in range, identities -/
+
+/-- Behaviour at the documented boundary: every whole number of turns (360, -360, 720, ...) is stored
+    as 0 — the bound of the canonical range is exclusive. -/
+theorem reduce_whole_turns (k : ℤ) : reduce_deg (360 * (k : ℚ)) = 0 := by
+  by_cases hk : k = 0
+  · subst hk; rw [reduce_deg_of_lt (by norm_num)]; norm_num
+  · have habs : |360 * (k : ℚ)| = ((360 * |k| : ℤ) : ℚ) := by
+      rw [abs_mul, abs_of_pos (by norm_num : (0 : ℚ) < 360)]; push_cast; rfl
+    have hge : 360 ≤ |360 * (k : ℚ)| := by
+      rw [habs]
+      have : 1 ≤ |k| := Int.one_le_abs hk
+      exact_mod_cast (by omega : (360 : ℤ) ≤ 360 * |k|)
+    rw [reduce_deg_of_ge hge]
+    unfold turnRem
+    rw [habs, Int.floor_intCast, Int.fract_intCast]
+    have : (360 * |k|) % 360 = 0 := Int.mul_emod_right 360 |k|
+    rw [this]; simp
+
+example : reduce_deg 360 = 0 ∧ reduce_deg (-360) = 0 ∧ reduce_deg 1080 = 0 := by decide +kernel
+
+/-- Every constructor call that succeeds stores a value strictly inside (-360, 360), whatever the
+    argument shape (the copy form returns its source unchanged, so it is in range when the source is). -/
+theorem ctor_always_in_range (s : Shape) (a : Angle) (h : angle_new s = .ok a) :
+    (∀ c, s = .copy c → a = c) ∧ ((∀ c, s ≠ .copy c) → |a.deg| < 360) := by
+  unfold angle_new at h
+  cases s with
+  | none => cases h; exact ⟨fun c hc => (by cases hc), fun _ => by norm_num⟩
+  | num x => cases h; exact ⟨fun c hc => (by cases hc), fun _ => (reduce_deg_spec x).1⟩
+  | copy c => cases h; exact ⟨fun c' hc => (by cases hc; rfl), fun hne => absurd rfl (hne _)⟩
+  | seq xs =>
+    refine ⟨fun c hc => (by cases hc), fun _ => ?_⟩
+    rcases xs with _ | ⟨x, _ | ⟨y, _ | ⟨z, _ | ⟨w, rest⟩⟩⟩⟩
+    · cases h
+    · cases h; exact (reduce_deg_spec x).1
+    · cases h; exact (dms2deg_spec _ _ _).1
+    · cases h; exact (dms2deg_spec _ _ _).1
+    · cases h; exact (dms2deg_spec _ _ _).1
+  | args xs =>
+    refine ⟨fun c hc => (by cases hc), fun _ => ?_⟩
+    rcases xs with _ | ⟨x, _ | ⟨y, _ | ⟨z, _ | ⟨w, rest⟩⟩⟩⟩
+    · cases h
+    · cases h
+    · cases h; exact (dms2deg_spec _ _ _).1
+    · cases h; exact (dms2deg_spec _ _ _).1
+    · cases h; exact (dms2deg_spec _ _ _).1
+
+example : ∃ a, angle_new (.num 360) = .ok a ∧ a.deg = 0 := ⟨_, rfl, by decide +kernel⟩
+/-- the sign piece of the 4-piece form reaches minutes and seconds when the degrees are 0 -/
+example : ∃ a, angle_new (.args [0, 5, 30, -1]) = .ok a ∧ a.deg = -(5 / 60 + 30 / 3600) := ⟨_, rfl, by decide +kernel⟩
+/-- rounding up to a whole turn wraps to 0 and the result carries the default tolerance -/
+example : (angle_round ⟨359.7, 0.5⟩ 0).deg = 0 ∧ (angle_round ⟨359.7, 0.5⟩ 0).tol = TOL := by decide +kernel
+
+/-- Identities between the library's own operations on valid Angles: `+` and `*` commute, `-(-a) = a`,
+    `a - a = 0`, and the positive form is idempotent. -/
+theorem identities (a b : Angle) (ha : |a.deg| < 360) :
+    angle_add a (.ang b) = angle_add b (.ang a) ∧ angle_mul a (.ang b) = angle_mul b (.ang a) ∧
+    (angle_neg (angle_neg a)).deg = a.deg ∧ (angle_sub a (.ang a)).deg = 0 ∧
+    to_positive (to_positive a) = to_positive a := by
+  have hneg : (angle_neg a).deg = -a.deg := reduce_deg_of_lt (by rw [abs_neg]; exact ha)
+  refine ⟨?_, ?_, ?_, ?_, ?_⟩
+  · unfold angle_add Operand.val; rw [add_comm]
+  · unfold angle_mul Operand.val; rw [mul_comm]
+  · show reduce_deg (-(angle_neg a).deg) = a.deg
+    rw [hneg, neg_neg]; exact reduce_deg_of_lt ha
+  · show reduce_deg (a.deg + (angle_neg a).deg) = 0
+    rw [hneg, add_neg_cancel]; exact reduce_deg_of_lt (by norm_num)
+  · obtain ⟨h0, h1, _, _, _⟩ := to_positive_range a ha
+    have hr : |(to_positive a).deg| < 360 := by rw [abs_lt]; constructor <;> linarith
+    exact (to_positive_range (to_positive a) hr).2.2.2.2 h0
+
 /-! ### Radians: input and view (over ℝ, `Pymeeus.GenR`) -/
 
 /-- The reduction theorem holds verbatim over the reals (the radians input needs it). -/
